@@ -98,6 +98,7 @@ type JSOpts struct {
 	NoClassSelf      bool // class expressions never reference their own name (recorded known finding)
 	NoModuleItems    bool // no import/export
 	MaxStmts         int
+	TopReturn        bool // return statements outside functions (accepted under Options.Inline only: the body of an event handler)
 	YieldName        bool // with CtxNames: `yield` is used as a variable name where the grammar allows it (no module items: module code is strict)
 	CtxNames         bool // contextual keywords (async, of, get, set, as, from) are used as variable names too
 	ParamDefaultRefs bool // parameter defaults mention variables of the scopes outside the function
@@ -1119,7 +1120,7 @@ func (g *jsGen) stmt(depth int, top bool) *JSNode {
 		}
 		return &JSNode{K: "debugger"} // no empty statement directly inside a statement list: the parser folds ";;" (pinned by the unit tests for "{};;")
 	case c == 18:
-		if g.inFunc > 0 {
+		if g.inFunc > 0 || g.o.TopReturn && g.scope.fn != nil && g.scope.fn.kind == "module" {
 			n := &JSNode{K: "return", Kids: []*JSNode{nil}}
 			if r.Intn(3) > 0 {
 				n.Kids[0] = g.expr(2, pComma)
